@@ -2001,6 +2001,17 @@ static int64_t eval2_raw(Node *node, char ***label) {
   case ND_LOGOR:
     return eval(node->lhs) || eval(node->rhs);
   case ND_CAST:
+    add_type(node->lhs);
+    if (is_flonum(node->lhs->ty)) {
+      // A floating value converts to _Bool by comparison with zero and
+      // to an unsigned 64-bit type without passing through int64_t.
+      long double val = eval_double(node->lhs);
+      if (node->ty->kind == TY_BOOL)
+        return val != 0;
+      if (node->ty->is_unsigned && node->ty->size == 8)
+        return (uint64_t)val;
+      return (int64_t)val;
+    }
     // eval2 narrows the value to the type of the cast.
     return eval2(node->lhs, label);
   case ND_ADDR:
